@@ -385,7 +385,14 @@ def gen_extra(tier, rnd):
               for v in ('add_function', 'add_callable', 'call') for e in (False, True)]
     reg = allreg if tier != 'quick' else rnd.sample(allreg, 288)
     defer = [dict(kind=k, prof=p) for k in PKINDS for p in ('lp', 'cp')]
-    return dict(nest=gen_nest(tier, rnd), desc=desc, meta=meta, reg=reg, defer=defer)
+    # one `def` executed several times (loop / factory) with different - or equal but distinct - default objects,
+    # attributes and names; every member decorated by the SAME profiler
+    allfam = [dict(kind=k, n=n, how=h, same_defaults=sd, when=w, rename=rn, reverse=rv, prof=p)
+              for k in ('func', 'gen', 'coro', 'agen', 'tgen') for n in (2, 3, 5) for h in ('loop', 'factory')
+              for sd in (False, True) for w in ('each', 'after') for rn in (False, True) for rv in (False, True)
+              for p in ('lp', 'cp')]
+    family = allfam if tier != 'quick' else rnd.sample(allfam, 240)
+    return dict(nest=gen_nest(tier, rnd), desc=desc, meta=meta, reg=reg, family=family, defer=defer)
 
 
 def strip_phase(x):
@@ -497,6 +504,13 @@ def eval_kern(cases, outs, res, cov, use_coq=True):
                                            'undecorated one (or kernprof.main does not end cleanly)', finding=None))
     cov['kern_spec_fails'] = nfail
     cov['kern_cases_in_coq_model'] = len(rows)
+
+
+def py_spec_family(o):
+    """every function object made by one `def` behaves, decorated, like its own undecorated twin (own defaults,
+    keyword-only defaults, attributes, name, own bound objects); the wrappers are distinct and wrap their own function"""
+    return 'driver_error' not in o and strip_phase(o['got']) == strip_phase(o['ref']) and all(o['wrapped_own']) \
+        and len(o['wrapped_own']) > 0 and not o['leaked']
 
 
 def py_spec_reg(o):
@@ -718,7 +732,8 @@ def eval_extra(extra, out, res, cov, use_coq=True):
         if per[fid] <= (3 if fid else 50):
             res.spec_fails.append(dict(case=dict(stream='nest', **c), impl=o,
                                        why='decorated code under another active profiler: expected %r' % (nest_expected(c),), finding=fid))
-    for name, spec, coqfail in (('desc', py_spec_desc, set()), ('meta', py_spec_meta, coq_meta_fail), ('reg', py_spec_reg, set())):
+    for name, spec, coqfail in (('desc', py_spec_desc, set()), ('meta', py_spec_meta, coq_meta_fail), ('reg', py_spec_reg, set()),
+                                ('family', py_spec_family, set())):
         for n, (c, o) in enumerate(zip(extra[name], out[name])):
             if 'driver_error' in o:
                 res.infra_errors.append('%s driver error: %s' % (name, o['driver_error']))
@@ -731,7 +746,9 @@ def eval_extra(extra, out, res, cov, use_coq=True):
                 res.spec_fails.append(dict(case=dict(stream=name, **c), impl=o,
                                            why={'desc': 'descriptor/partial wrapped by the profiler behaves differently from the original on some access path',
                                                 'meta': 'name / doc / signature / kind / attributes not preserved',
-                                                'reg': 'behaviour of a function changed by registering it (add_function / add_callable / decoration)'}[name],
+                                                'reg': 'behaviour of a function changed by registering it (add_function / add_callable / decoration)',
+                                                'family': 'function objects made by one `def` (shared code object, different defaults / attributes / names) '
+                                                          'do not all behave like their undecorated twins once decorated by the same profiler'}[name],
                                            finding=fid))
     cov['extra_spec_fails_by_finding'] = {str(k): v for k, v in per.items()}
 
@@ -765,7 +782,7 @@ def run(tier, seed):
                         best = cand
         ex2 = gen_extra('quick', r2)
         o2 = core.run_impl(impl, 'harness.drivers.c03', dict(extra=ex2), timeout=1200)['extra']
-        for name, spec in (('nest', None), ('desc', py_spec_desc), ('meta', py_spec_meta), ('reg', py_spec_reg)):
+        for name, spec in (('nest', None), ('desc', py_spec_desc), ('meta', py_spec_meta), ('reg', py_spec_reg), ('family', py_spec_family)):
             for c, o in zip(ex2[name], o2[name]):
                 if 'driver_error' in o:
                     continue
@@ -841,16 +858,16 @@ def run(tier, seed):
                 hyp_coro += 1
             else:
                 hyp_coro_out += 1
-    n_eval = 3 * len(recs) + 3 * len(arecs) + len(kcases) + sum(len(extra[k]) for k in ('nest', 'desc', 'meta', 'reg'))
+    n_eval = 3 * len(recs) + 3 * len(arecs) + len(kcases) + sum(len(extra[k]) for k in ('nest', 'desc', 'meta', 'reg', 'family'))
     two_prof = sum(1 for c in extra['nest'] if len({p for _, p in c['layers']}) >= 2)
     exh = (3, 2) if tier == 'quick' else (4, 3)
     cov.update(
         evaluations=n_eval,
-        distinct_nontrivial=len(nontrivial) + two_prof + len(extra['desc']) + len(extra['reg'])
+        distinct_nontrivial=len(nontrivial) + two_prof + len(extra['desc']) + len(extra['reg']) + len(extra['family'])
         + len({json.dumps(c) for c in kcases if any(st[0] == 'tick' for st in c['steps']) and len(c['steps']) > 1}),
         rule='protocol cases (kind x body table x op sequence x {unwrapped, LineProfiler, ContextualProfile}) count as non-trivial '
              'when the op sequence is non-empty and the body is resumed at least once, distinct by all four components; nest cases '
-             'when two different profiler instances are involved; kern scenarios when they contain a timer tick and another step; every descriptor term and registration case is counted '
+             'when two different profiler instances are involved; kern scenarios when they contain a timer tick and another step; every descriptor term, registration case and function family (>= 2 function objects sharing a code object) is counted '
              '(each walks >= 7 access paths / argument lists)',
         exhaustive=True,
         exhaustive_scope='op sequences of length <= %d over {next, send 2, throw ValueError, throw GeneratorExit, close} for %d random tables '
@@ -858,7 +875,7 @@ def run(tier, seed):
                    '%s registration configurations' % (exh[0], 4 if tier == 'quick' else 24, exh[1],
                                                        'all 576' if tier != 'quick' else '288 sampled of 576'),
         streams=dict(protocol_triples=len(recs), protocol_runs=3 * len(recs), await_runs=3 * len(arecs), kern=len(kcases),
-                     nest=len(extra['nest']), desc=len(extra['desc']), meta=len(extra['meta']), reg=len(extra['reg'])),
+                     nest=len(extra['nest']), desc=len(extra['desc']), meta=len(extra['meta']), reg=len(extra['reg']), family=len(extra['family'])),
         kern_modes=_hist(c['mode'] for c in kcases), kern_step_kinds=_hist(st[0] for c in kcases for st in c['steps']),
         kern_ticks_at_count_zero_then_call=sum(1 for c in kcases if any(a[0] == 'tick' and b[0] in ('call', 'gsend', 'gstart') for a, b in zip(c['steps'], c['steps'][1:]))),
         kinds=_hist(r['kind'] for r in recs),
@@ -933,7 +950,7 @@ def replay(path):
         ok = py_spec_nest(cc, o)
         extra = dict(expected=nest_expected(cc), finding=None if ok else classify_nest(cc, o))
     else:
-        ok = {'desc': py_spec_desc, 'meta': py_spec_meta, 'reg': py_spec_reg}[stream](o)
+        ok = {'desc': py_spec_desc, 'meta': py_spec_meta, 'reg': py_spec_reg, 'family': py_spec_family}[stream](o)
         extra = dict(finding=classify_meta(o)) if (stream == 'meta' and not ok) else {}
     print(json.dumps(dict(case=c, impl=o, holds=ok, **extra), indent=1, default=str))
     return 0 if ok else 1
